@@ -24,6 +24,7 @@ import BronVerif.Lemmas.SharingHier
 import BronVerif.Lemmas.SharingDeal
 import BronVerif.Lemmas.SharingPrivacy
 import BronVerif.Lemmas.SharingClause
+import BronVerif.Lemmas.SharingBirkhoff
 /-!
 # C02 — exactly the qualified sets can reconstruct; unqualified sets learn nothing
 
@@ -607,9 +608,11 @@ established per instance by the C02 driver (op `oracle` and `accepts` on every s
 around it: `hier_qualified_accepted_partial` (accepted, given a non-singular square selection of
 rows), `hier_unqualified_rejected` (every set violating some level threshold is rejected, given a
 kernel vector for its rows of the levels up to the violated one — equivalently
-`hier_unqualified_rejected_of_det`, given a non-singular completion containing the target row),
+`kernel_of_det_ne_zero`, given a non-singular completion containing the target row),
 `model_hier_rejects_first_level` (the executable programme rejects every set below the first
-threshold, with no extra hypothesis). -/
+threshold, with no extra hypothesis), `model_accepts_of_det` (the executable programme accepts a set
+whose square row matrix has non-zero determinant), `hier_two_level_unisolvent` (two levels with
+increasing identifiers: non-singular over ℝ). -/
 def hier_statement (F : Type) [Field F] [DecidableEq F] [Fintype F] : Prop :=
   ∀ levels : List (Int × List ℕ), (Policy.hier levels).validate = .ok () →
     hierCheck (Fintype.card F) levels = .ok () →
@@ -759,6 +762,53 @@ example : (hierMSP (F := ZMod 7) [(2, [1, 2]), (3, [3])]).accepts [1, 3] = false
     simp only [List.map_cons, List.map_nil, List.flatten_cons, List.flatten_nil, List.append_nil,
       List.cons_append, List.nil_append, List.mem_cons, List.not_mem_nil, or_false] at hi
     rcases hi with rfl | rfl | rfl <;> decide
+
+/-- **Accepted, given a non-zero Birkhoff determinant — for the executable model.**  If the rows of
+the set `S` form a square matrix (as many rows as the programme has columns) whose determinant, as
+computed by the model's `LinAlg.det` (mirror of `SquareMatrix.Determinant`, equal to `Matrix.det` by
+`Lemmas.GaussJordanDet.det_eq_matrix_det`), is non-zero, then the mirrored solver accepts `S`.  For
+`hierMSP` this is the "qualified ⇒ accepted" direction of `hier_statement` for minimal qualified
+sets, given the non-singularity that Tassa's Theorem 3 supplies. -/
+theorem model_accepts_of_det {F : Type} [Field F] [DecidableEq F] (m : MSP F) (S : List ℕ)
+    (hS : ∀ id ∈ S, id ∈ m.holders) (hpos : 0 < m.cols) (hsq : (m.sub S).length = m.cols)
+    (hw : ∀ row ∈ m.sub S, row.length = m.cols) (hdet : BronVerif.LinAlg.det (m.sub S) ≠ 0) :
+    m.accepts S = true :=
+  BronVerif.Lemmas.SharingBirkhoff.accepts_of_det_ne_zero m S hS hpos hsq hw hdet
+
+/-- non-vacuity: levels `{1}` (threshold 1), `{2}` (threshold 2) over `ZMod 7`: rows `(1,1)` (id 1,
+order 0) and `(0,1)` (id 2, order 1), determinant 1 -/
+example : (({ mat := [[1, 1], [0, 1]], cols := 2, holders := [1, 2] } : MSP (ZMod 7))).accepts [1, 2] = true :=
+  model_accepts_of_det _ [1, 2] (by decide) (by decide) (by decide +kernel) (by decide +kernel)
+    (by decide +kernel)
+
+/-- **Two levels, identifiers increasing from the first level to the second: the Birkhoff problem
+is unisolvent over ℝ** (iterated Rolle).  `xs`: nodes of the first level (derivative order 0), `ys`:
+nodes of the second level (order `t₀ ≤ |xs|`: a qualified set has at least `t₀` members of the first
+level), every `x` below every `y` — the ordering `CheckConstraints` demands.  The only polynomial of
+degree `< |xs| + |ys|` that vanishes at every `x` and whose `t₀`-th derivative vanishes at every `y`
+is 0; equivalently the square Birkhoff–Vandermonde matrix of the nodes is non-singular over ℝ, hence
+its integer determinant is non-zero.  This is the characteristic-0 half of Tassa's Theorem 3 for two
+levels; what remains of the named gap is (a) more than two levels and (b) the passage to `F_q`
+(`|det| < q` from the field-size condition, so the determinant stays non-zero modulo `q`). -/
+theorem hier_two_level_unisolvent (xs ys : Finset ℝ) (t₀ : ℕ) (ht : t₀ ≤ xs.card)
+    (hord : ∀ x ∈ xs, ∀ y ∈ ys, x < y) (f : ℝ[X]) (hdeg : f.natDegree < xs.card + ys.card)
+    (hx : ∀ x ∈ xs, f.eval x = 0) (hy : ∀ y ∈ ys, (derivative^[t₀] f).eval y = 0) : f = 0 :=
+  BronVerif.Lemmas.SharingBirkhoff.two_level_unisolvent xs ys t₀ ht hord f hdeg hx hy
+
+/-- non-vacuity: first level `{1, 2}`, second level `{3}` with order 2 (threshold vector (2,3)):
+a polynomial of degree `< 3` with `f(1) = f(2) = 0` and `f''(3) = 0` is zero -/
+example (f : ℝ[X]) (hdeg : f.natDegree < 3) (h1 : f.eval 1 = 0) (h2 : f.eval 2 = 0)
+    (h3 : (derivative^[2] f).eval 3 = 0) : f = 0 := by
+  refine hier_two_level_unisolvent {1, 2} {3} 2 (by norm_num) ?_ f (by norm_num; exact hdeg) ?_ ?_
+  · intro x hx y hy
+    simp only [Finset.mem_insert, Finset.mem_singleton] at hx hy
+    rcases hx with rfl | rfl <;> subst hy <;> norm_num
+  · intro x hx
+    simp only [Finset.mem_insert, Finset.mem_singleton] at hx
+    rcases hx with rfl | rfl <;> assumption
+  · intro y hy
+    simp only [Finset.mem_singleton] at hy
+    subst hy; exact h3
 
 end Partial
 
